@@ -132,6 +132,11 @@ def job_emit(job):
                         if state not in ("open", "two-streams"):
                             continue
                     dep2 = hsid if dep == sid else dep
+                    big = client and w in (None, 1, 77, 256) and sid == sids[0]
+                    if big:
+                        # every fourth weight: a header list whose block needs CONTINUATION frames (the priority fields
+                        # travel in the first frame only and must survive the reassembly at the peer)
+                        hdrs = hdrs + H.ni([(b"x-big", b"Z" * 20000)])
                     o = H.call(conn, "send_headers", hsid, hdrs, priority_weight=w, priority_depends_on=dep2,
                                priority_exclusive=ex)
                     exp = expected_emit(client, hsid, w, dep2, ex)
@@ -146,7 +151,8 @@ def job_emit(job):
                            role="client" if client else "server", expected=exp, got=got, via="send_headers")
                     elif exp == "ok":
                         want = (dep2 or 0, w if w is not None else 16, bool(ex))
-                        ok = (len(o.frames) == 1 and o.frames[0].type == wire.HEADERS and o.frames[0].f["prio"] == want and not o.wire_error)
+                        ok = (len(o.frames) >= 1 and o.frames[0].type == wire.HEADERS and o.frames[0].f["prio"] == want and not o.wire_error
+                              and all(f.type == wire.CONTINUATION for f in o.frames[1:]) and (len(o.frames) > 1) == bool(big))
                         if not ok:
                             _v(viols, "priority-frame-fields", "send_headers(priority %r,%r,%r) emitted %s, expected priority %r" % (
                                 w, dep2, ex, o.brief(), want), case, via="send_headers")
@@ -220,6 +226,47 @@ def job_recv(job):
                          "frame": "PRIORITY sid=101 dep=3 weight=256 exclusive"}]}
 
 
+def job_recvh(job):
+    """HEADERS frames carrying priority fields: a request opening stream 1 / 5 at a server, a response on the client's
+    open stream 1; as one frame and split into HEADERS + CONTINUATION (the priority fields are in the first frame)."""
+    client, wbytes = job["client"], job["wbytes"]
+    blob = corpus.state_blob(client, "open" if client else "handshaken")
+    viols, outcomes = {}, {}
+    n = nt = 0
+    for sid in ((1,) if client else (1, 5)):
+        block = sb(H.RESP if client else H.REQ)
+        for wb in wbytes:
+            for dep in (0, sid, 3, 2 ** 31 - 1):
+                for ex in (False, True):
+                    for split in (False, True):
+                        conn = pickle.loads(blob)
+                        if split:
+                            frs = [wire.headers(sid, block[:3], prio=(dep, wb + 1, ex), eh=False), wire.continuation(sid, block[3:])]
+                        else:
+                            frs = [wire.headers(sid, block, prio=(dep, wb + 1, ex))]
+                        o = H.recv(conn, wire.ser(frs))
+                        n += 1
+                        case = {"fam": "recvh", "client": client, "hex": wire.ser(frs).hex()}
+                        if dep == sid:
+                            nt += 1
+                            outcomes["recvh:self-dependency"] = outcomes.get("recvh:self-dependency", 0) + 1
+                            if not (o.kind == "raise" and o.is_proto and int(o.code) == wire.PROTOCOL_ERROR):
+                                _v(viols, "self-dependency-accepted", "HEADERS sid=%d with priority fields depending on itself: %s" % (sid, o.brief()),
+                                   case, carrier="HEADERS", split=split)
+                            continue
+                        outcomes["recvh:ok"] = outcomes.get("recvh:ok", 0) + 1
+                        evs = o.events if o.kind == "ok" else []
+                        main = [e for e in evs if type(e).__name__ in ("RequestReceived", "ResponseReceived")]
+                        pu = [e for e in evs if type(e).__name__ == "PriorityUpdated"]
+                        good = (o.kind == "ok" and len(main) == 1 and len(pu) == 1 and main[0].priority_updated is pu[0] and
+                                (pu[0].stream_id, pu[0].depends_on, pu[0].weight, pu[0].exclusive) == (sid, dep, wb + 1, ex))
+                        if not good:
+                            _v(viols, "priority-received-wrong", "HEADERS(sid=%d dep=%d w=%d ex=%s%s) at a %s -> %s %s" % (
+                                sid, dep, wb + 1, ex, " + CONTINUATION" if split else "", "client" if client else "server", o.brief(),
+                                [H.event_brief(e) for e in evs]), case, carrier="HEADERS", split=split, outcome=o.exc_name or "ok")
+    return {"evaluations": n, "outcomes": outcomes, "nontrivial": nt, "violations": list(viols.values()), "samples": []}
+
+
 def dispatch(job):
     return globals()["job_" + job["fam"]](job)
 
@@ -228,6 +275,9 @@ def replay(rec):
     case = rec["case"]
     if case["fam"] == "emit":
         r = job_emit({"client": case["client"], "state": case["state"], "sids": [case["sid"]], "weights": [case["w"]]})
+    elif case["fam"] == "recvh":
+        fr = wire.split_frames(bytes.fromhex(case["hex"]))[0]
+        r = job_recvh({"client": case["client"], "wbytes": [fr.payload[4]]})
     else:
         fr = wire.split_frames(bytes.fromhex(case["hex"]))[0]
         r = job_recv({"client": case["client"], "state": case["state"], "wbytes": [fr.payload[4]]})
@@ -254,5 +304,8 @@ def run(ctx):
             full = (not quick) or state in ("open", "handshaken", "two-streams", "forgotten")
             wb = list(range(256)) if full else list(range(0, 256, 8)) + [255]
             jobs.append({"fam": "recv", "client": client, "state": state, "wbytes": wb})
+    for client in (False, True):
+        for lo in range(0, 256, 32):
+            jobs.append({"fam": "recvh", "client": client, "wbytes": list(range(lo, lo + 32))})
     ctx.fanout("c23-%s" % ctx.tier, jobs, "dispatch", domain="%d jobs" % len(jobs))
     ctx.fanouts[-1]["states"] = len(corpus.CLIENT_STATES) + len(corpus.SERVER_STATES)
